@@ -51,10 +51,10 @@ PROPS["C10"] = {
         "set(x); get() = x (lp_set_get)",
         "second order: one-step linear form under explicit no-overflow preconditions (lp2_step_linear); the only resting state under a constant input has velocity 0 and get() = x exactly, i.e. DC gain exactly 1 at rest (lp2_fixed_point_iff)",
         "NEGATION: second order wraps/panics near full scale (lp2_fullscale_overflow_witness): known finding F-C10",
-        "SECOND ORDER (Props/C10lp2.lean), every documented Butterworth k (integer k, k0 = floor(k^2/2^32), k1 = -floor(sqrt(2 k^2)), 2^16 <= k <= 2^31/sqrt2), both profiles: exact error recursion with the two floor remainders (lp2_error_recursion); admissibility and complex characteristic roots of every such pair (lp2_butterworth_admissible); input-to-state stability through an exactly multiplicative quadratic Lyapunov form (lp2_settles_of_safe, lp2_settles_of_safe2); a filter settled at |xo| <= 2^29 switched to a constant |x| <= 2^29 never panics / wraps / saturates and after finitely many updates stays within 4*2^32/k + 4 LSB for ever (lp2_level_change_pm2p29); no panic and bounded outputs for ARBITRARY input sequences within +-2^29 (lp2_any_input_pm2p29); the same over all states reachable by set() and histories within +-2^28 (lp2_reachable_settles_pm2p28)",
+        "SECOND ORDER (Props/C10lp2.lean), every documented Butterworth k (integer k, k0 = floor(k^2/2^32), k1 = -floor(sqrt(2 k^2)), 2^16 <= k <= 2^31/sqrt2), both profiles: exact error recursion with the two floor remainders (lp2_error_recursion); admissibility and complex characteristic roots of every such pair (lp2_butterworth_admissible); input-to-state stability through an exactly multiplicative quadratic Lyapunov form (lp2_settles_of_safe, lp2_settles_of_safe2); a filter settled at |xo| <= 2^29 switched to a constant |x| <= 2^29 never panics / wraps / saturates and after finitely many updates stays within 4*2^32/k + 4 LSB for ever (lp2_level_change_pm2p29); the same for levels in the whole +-2^30 range when each step is at most 3*2^28, repeatable (lp2_level_change_pm2p30_step, Lp2Start); no panic and bounded outputs for ARBITRARY input sequences within +-2^29 (lp2_any_input_pm2p29); the same over all states reachable by set() and histories within +-2^28 (lp2_reachable_settles_pm2p28)",
     ],
     "clauses_explored": [
-        "second order: settling for levels between 2^29 and 2^30, the 5% overshoot bound, and an explicit settling time (native sweep over k x level pairs; the proved part covers levels within +-2^29 and 'eventually')",
+        "second order: settling for steps larger than 3*2^28 between levels beyond +-2^29, the 5% overshoot bound, and an explicit settling time (native sweep over k x level pairs; the proved part covers levels within +-2^29 and 'eventually')",
         "second order never wraps for steps whose target level is below 0.95 of full scale (native, against an unbounded-integer reference of the same recurrence)",
     ],
     "level_text": "The first-order clauses are theorems for all gains, all i64 states and all inputs. For the second order, no-overflow and settling within 4*2^32/k+4 LSB are theorems for every documented Butterworth gain and levels within +-2^29 (Lyapunov / input-to-state-stability argument over the integers); levels up to 2^30, the 5% overshoot and the settling time are explored only; the failing full-scale clause is a proved negation and a known finding.",
